@@ -17,8 +17,8 @@ ASSUMPTIONS = ["only the documented-equal domain is compared: all model types at
                "litdata's serialisation layer is replaced by passing the chunk dict to the streaming class's own __getitem__ (PIL images and tensors as litdata returns them)",
                "tolerances: images 1/255 + 1e-6 (8-bit truncation), targets and keypoints 1e-4 after squeezing singleton axes"]
 SHARDS = {"quick": 8, "thorough": 16}
-N = {"quick": 330, "thorough": 16000}
-BUDGET = {"quick": 110, "thorough": 1500}
+N = {"quick": 330, "thorough": 32000}
+BUDGET = {"quick": 110, "thorough": 600}
 TIMEOUT = {"quick": 800, "thorough": 3000}
 SELF_SHARDED = True
 _S = {}
